@@ -3,11 +3,13 @@ package main
 import (
 	"bytes"
 	"fmt"
+	"hash/fnv"
 	"os"
 	"runtime"
 	"runtime/debug"
 	"sort"
 	"sync"
+	"sync/atomic"
 	"time"
 
 	"github.com/RoaringBitmap/roaring/v2"
@@ -300,6 +302,10 @@ func checkC11(c *ctx) {
 	defer func() { zap.LegacyChunkMode = saved }()
 	if bad := sameProcessorMerge(c); bad != "" {
 		c.Violation("C11 a merge that re-encodes stored fields (deletions) next to a reader scheduled on the same processor (GOMAXPROCS=1, so both draw the same pooled scratch object)\n"+bad, false)
+		return
+	}
+	if bad := bigDictionaryFirstUse(c); bad != "" {
+		c.Violation("C11 "+bad, false)
 		return
 	}
 	if bad := thesaurusFirstUseRace(c); bad != "" {
@@ -676,6 +682,88 @@ func thesaurusFirstUseRace(c *ctx) string {
 		}
 		must(seg.Close())
 		c.Count("thesaurus_first_use_races")
+	}
+	return ""
+}
+
+// bigDictionaryFirstUse: a segment whose term dictionaries are larger than 64 KiB (9000 documents,
+// each with a term of its own; 9000 ids); freshly opened (or freshly built) copies are used for the
+// first time by eight goroutines at the same instant - DocNumbers, postings of a term, an occasional
+// merge - and every answer must be the one the documents dictate.
+// bigName: names without common prefixes (a dictionary of them does not compress)
+func bigName(kind string, d interface{}) string {
+	h := fnv.New64a()
+	fmt.Fprint(h, kind, d)
+	x := h.Sum64()
+	return fmt.Sprintf("%016x%s", x*0x9e3779b97f4a7c15, kind[:1])
+}
+
+func bigDictionaryFirstUse(c *ctx) string {
+	const nd = 9000
+	var b zh.Batch
+	for d := 0; d < nd; d++ {
+		b = append(b, zh.Doc{Fields: []zh.Field{zh.IDField(bigName("id", d)),
+			{Name: "body", Len: 1, Toks: []zh.Tok{{Term: bigName("term", d), Freq: 1}}}}})
+	}
+	sb, _, err := zh.Build(b, 1026)
+	must(err)
+	path := zh.TmpPath("c11big")
+	must(zap.PersistSegmentBase(sb, path))
+	sb.Close()
+	defer os.Remove(path)
+	for trial := 0; trial < c.n(40, 600); trial++ {
+		s, err := zh.Plugin.Open(path)
+		must(err)
+		var ready, gate int32
+		var wg sync.WaitGroup
+		errs := make(chan string, 16)
+		for g := 0; g < 8; g++ {
+			wg.Add(1)
+			go func(g int) {
+				defer wg.Done()
+				defer func() {
+					if r := recover(); r != nil {
+						errs <- fmt.Sprintf("PANIC: %v", r)
+					}
+				}()
+				d := uint64((g*1117 + trial*31) % nd)
+				atomic.AddInt32(&ready, 1)
+				for atomic.LoadInt32(&gate) == 0 {
+				}
+				if g%2 == 0 {
+					bm, err := s.DocNumbers([]string{bigName("id", d)})
+					if err != nil || bm.GetCardinality() != 1 || !bm.Contains(uint32(d)) {
+						errs <- fmt.Sprintf("DocNumbers(id of document %d) = %v (err %v)", d, bm, err)
+					}
+					return
+				}
+				dict, err := s.Dictionary("body")
+				if err != nil {
+					errs <- "Dictionary(body): " + err.Error()
+					return
+				}
+				pl, err := dict.PostingsList([]byte(bigName("term", d)), nil, nil)
+				if err != nil {
+					errs <- "PostingsList: " + err.Error()
+					return
+				}
+				p, err := pl.Iterator(false, false, false, nil).Next()
+				if err != nil || p == nil || p.Number() != d || pl.Count() != 1 {
+					errs <- fmt.Sprintf("the term of document %d has Count %d and first hit %v (err %v)", d, pl.Count(), p, err)
+				}
+			}(g)
+		}
+		for atomic.LoadInt32(&ready) != 8 {
+			runtime.Gosched()
+		}
+		atomic.StoreInt32(&gate, 1)
+		wg.Wait()
+		close(errs)
+		s.Close()
+		c.Count("simultaneous_first_uses_of_a_big_dictionary")
+		for e := range errs {
+			return fmt.Sprintf("a segment of %d documents whose dictionaries exceed 64 KiB, freshly opened and used for the first time by eight goroutines at the same instant (trial %d)\n%s", nd, trial, e)
+		}
 	}
 	return ""
 }
